@@ -9,9 +9,10 @@ props = [json.loads(l)['id'] for l in open(os.path.join(here, 'properties.jsonl'
 NA_FILE = os.path.join(here, 'tools', 'not_applicable.json')
 na_reasons = json.load(open(NA_FILE)) if os.path.exists(NA_FILE) else {}
 checks, na, served = [], [], []
+READY = set(open(os.path.join(here, 'tools', 'ready.txt')).read().split())
 for p in props:
     path = os.path.join(here, 'checks', p.lower() + '.py')
-    if not os.path.exists(path) or p in na_reasons:
+    if not os.path.exists(path) or p in na_reasons or p not in READY:
         na.append({'property_id': p, 'reason': na_reasons.get(p, 'no check registered yet in this revision of /verif (work in progress, see DESIGN.md §9); nothing is claimed for it')})
         continue
     m = importlib.import_module('checks.' + p.lower())
